@@ -184,7 +184,9 @@ theorem exec_plain_pres (s : Sys) (t : Nat) (op : Op) (hp : isPlain op = true) (
     simp only [exec]
     split
     · exact Pres.refl _
-    · exact Pres.of_loc (Sys.newSpan_loc _ _ _ _ _ _ _)
+    · split
+      · exact Pres.refl _
+      · exact Pres.of_loc (Sys.newSpan_loc _ _ _ _ _ _ _)
   | childLocal v n =>
     simp only [exec]
     split
